@@ -634,3 +634,98 @@ func ruleProtoScopeNames(c *Ctx, r *Report) {
 			"genListKeyProto: "+why+": a sibling container named <list>-key gets a message of the same name and the .proto declares it twice")
 	}
 }
+
+// ---- R-ENUM-GONAME-UNIQ (C26, C17) -------------------------------------------------------------
+
+// ruleEnumGoNameUniq: the Go constant of an enum value is <Enum>_<sanitised YANG name>, and the
+// sanitiser is not injective ('.', '-', '/' and ' ' all become '_'). Inside the loop that fills an
+// enum's value names, each name must be tested against the names already given (an error on a
+// repeat) or come out of a uniquifier; otherwise one constant is declared twice.
+func ruleEnumGoNameUniq(c *Ctx, r *Report) {
+	r.Rule("R-ENUM-GONAME-UNIQ", "gogen.genGoEnumeratedTypes gives each value of an enum a Go name that is tested against the names already given in that enum (a clash is a generation error) or produced by a uniquifier; the sanitiser alone maps v.1 and v-1 to one identifier and the generated package declares a constant twice", 1)
+	f := c.MustFunc(r, "gogen", "genGoEnumeratedTypes")
+	if f == nil {
+		return
+	}
+	info := f.Info()
+	n := 0
+	ast.Inspect(f.Decl.Body, func(x ast.Node) bool {
+		as, ok := x.(*ast.AssignStmt)
+		if !ok || len(as.Lhs) != 1 || len(as.Rhs) != 1 {
+			return true
+		}
+		ix, ok := ast.Unparen(as.Lhs[0]).(*ast.IndexExpr)
+		if !ok {
+			return true
+		}
+		tv, ok := info.Types[ix.X]
+		if !ok || tv.Type == nil || tv.Type.String() != "map[int64]string" {
+			return true
+		}
+		loop := c.EnclosingLoop(f, as)
+		if loop == nil {
+			return true
+		}
+		n++
+		key := fmt.Sprintf("gogen.genGoEnumeratedTypes:value-name#%d", n)
+		if why := uniqueNameSource(c, f, as.Rhs[0], loop, 0); why != "" {
+			r.OK(key, c.Pos(as.Pos()), why)
+			return true
+		}
+		// membership test: the stored name (a local) is looked up, comma-ok, in a map declared
+		// outside the loop, the hit returns/records an error, and the name is then recorded in it.
+		obj := ObjOf(info, as.Rhs[0])
+		tested := false
+		if obj != nil {
+			ast.Inspect(loop, func(y ast.Node) bool {
+				is, ok := y.(*ast.IfStmt)
+				if !ok || is.Init == nil {
+					return true
+				}
+				init, ok := is.Init.(*ast.AssignStmt)
+				if !ok || len(init.Lhs) != 2 || len(init.Rhs) != 1 {
+					return true
+				}
+				lk, ok := ast.Unparen(init.Rhs[0]).(*ast.IndexExpr)
+				if !ok || ObjOf(info, lk.Index) != obj {
+					return true
+				}
+				set := ObjOf(info, lk.X)
+				if set == nil || (loop.Pos() <= set.Pos() && set.Pos() <= loop.End()) {
+					return true
+				}
+				if ObjOf(info, is.Cond) != ObjOf(info, init.Lhs[1]) {
+					return true
+				}
+				errExit := false
+				for _, rs := range returnsOf(is.Body) {
+					for _, res := range rs.Results {
+						if tv, ok := info.Types[res]; ok && tv.Type != nil && tv.Type.String() == "error" && !isNilIdent(info, res) {
+							errExit = true
+						}
+					}
+				}
+				recorded := false
+				if rhs, sites := storesOf(f, set); len(rhs) > 0 {
+					for _, s := range sites {
+						for _, l := range s.Lhs {
+							if six, ok := ast.Unparen(l).(*ast.IndexExpr); ok && ObjOf(info, six.Index) == obj && loop.Pos() <= s.Pos() && s.End() <= loop.End() {
+								recorded = true
+							}
+						}
+					}
+				}
+				if errExit && recorded && is.Pos() < as.Pos() {
+					tested = true
+				}
+				return true
+			})
+		}
+		r.Check(tested, key, c.Pos(as.Pos()), "name tested against the names already given in the enum; a repeat is an error",
+			"genGoEnumeratedTypes stores the Go name "+types.ExprString(as.Rhs[0])+" of an enum value without testing it against the names already given in the same enum: values v.1 and v-1 (or a value named UNSET) yield one constant declared twice")
+		return true
+	})
+	if n == 0 {
+		r.Und("gogen.genGoEnumeratedTypes:value-name", c.Pos(f.Decl.Pos()), "the store of value names (map[int64]string) inside a loop was not found")
+	}
+}
